@@ -30,8 +30,16 @@ def run_rules(prop: str, prog: Program, tier: str) -> Check:
     chk = Check(prop, prog, tier)
     mod.run(chk)
     for rule, n in getattr(mod, "FLOORS", {}).items():
-        chk.floor(rule, n)
+        chk.call(chk.floor, rule, n)
     return chk
+
+
+def new_failures(chk: Check):
+    from sa.report import load_known
+
+    known = {(k["rule"], k["construct"]) for k in load_known()
+             if k.get("property") == chk.prop and k.get("status") == "open"}
+    return [k for k in chk.failure_keys() if k not in known]
 
 
 def main(argv=None) -> int:
@@ -49,6 +57,12 @@ def main(argv=None) -> int:
         prog = Program(a.repo)
         mod = importlib.import_module(f"sa.rules.{prop.lower()}")
         chk = run_rules(prop, prog, a.tier)
+        if chk.refusals and not new_failures(chk):
+            # nothing else to report: the whole check refuses (exit 2)
+            raise AnalysisError(" | ".join(chk.refusals))
+        for r in chk.refusals:
+            # some rule refused, but another rule found a violation: report it (exit 1) and say what was not decided
+            print(f"ANALYSIS-ERROR property={prop} (rule not decided, the other rules were): {r}")
         if a.replay:
             with open(a.replay) as fh:
                 rp = json.load(fh)
